@@ -48,10 +48,11 @@ func runC14(e *Env) {
 	vsys.K.ReuseAdversary = e.Chance(1, 3)
 	ntargets := 1 + e.Intn(3)
 	targets := make([]*c14Target, ntargets)
+	var fullLfds, fullConns []int
 	stop := false
 	for i := range targets {
 		t := &c14Target{port: 5000 + i, lfd: -1}
-		switch e.Intn(6) {
+		switch e.Intn(7) {
 		case 0, 1, 2:
 			t.kind = "tcp4"
 		case 3:
@@ -60,6 +61,8 @@ func runC14(e *Env) {
 			t.kind = "unix"
 		case 5:
 			t.kind = "unix-absent"
+		case 6:
+			t.kind = "unix-full" // a listener that never accepts and whose backlog is full
 		}
 		if t.kind == "tcp4" || t.kind == "tcp6" {
 			t.mode = []int{vsys.VAccept, vsys.VAccept, vsys.VRefuse, vsys.VDrop, vsys.VResetOK}[e.Intn(5)]
@@ -76,6 +79,21 @@ func runC14(e *Env) {
 					panic("harness: listen: " + err.Error())
 				}
 				t.lfd = fd
+			}
+			if t.kind == "unix-full" {
+				fd, err := vsys.HListenUnix(t.path, 0)
+				if err != nil {
+					panic("harness: listen: " + err.Error())
+				}
+				fullLfds = append(fullLfds, fd)
+				// fill the accept queue: connects succeed until the kernel says EAGAIN
+				for k := 0; k < 64; k++ {
+					c, cerr := vsys.HConnectUnix(t.path)
+					if cerr != nil {
+						break
+					}
+					fullConns = append(fullConns, c)
+				}
 			}
 		}
 		targets[i] = t
@@ -248,6 +266,9 @@ func runC14(e *Env) {
 		if t.lfd >= 0 && t.vl == nil {
 			vsys.HClose(t.lfd)
 		}
+	}
+	for _, fd := range append(fullConns, fullLfds...) {
+		vsys.HClose(fd)
 	}
 	// a failed or timed-out dial leaves no descriptor behind (and every successful one was closed above)
 	for fd := range vsys.FDs {
